@@ -486,6 +486,14 @@ func genFiles(run *v.Run, r *v.Rand, tier string) {
 		} else if t.CMap == "own" {
 			t.CMap = "f4"
 		}
+		if i%3 == 1 {
+			// layout tables that are present and (partly) empty: the table set
+			// written is a function of presence, not of content
+			t.Layout = v.Pick(r, c01.DegenerateLayouts)
+			if r.Chance(1, 2) {
+				t.CMap = "f4lig"
+			}
+		}
 		if tier == "thorough" && i%500 == 11 {
 			t.Name, t.CMap = v.Pick(r, []string{"glyfbig", "cffbig"}), "f12"
 		}
@@ -532,7 +540,14 @@ func genReads(run *v.Run, r *v.Rand, tier string) {
 		src := written(v.Pick(r, []string{"plain", "extreme"}))
 		var edits []c01.Edit
 		for k := r.Range(1, 3); k > 0; k-- {
-			switch r.Intn(6) {
+			switch r.Intn(8) {
+			case 6:
+				// header-only GSUB / GPOS
+				edits = append(edits, c01.Edit{Kind: "set", Tag: v.Pick(r, []string{"GSUB", "GSUB", "GPOS"}), Data: v.Pick(r, c01.HeaderOnlyLayout)})
+			case 7:
+				// GDEF without GSUB and GPOS
+				edits = append(edits, c01.Edit{Kind: "set", Tag: "GDEF", Data: []byte{0, 1, 0, 0, 0, 0, 0, 0, 0, 0, 0, 0}},
+					c01.Edit{Kind: "drop", Tag: "GSUB"}, c01.Edit{Kind: "drop", Tag: "GPOS"})
 			case 0, 1:
 				edits = append(edits, c01.Edit{Kind: "drop", Tag: v.Pick(r, optional)})
 			case 2:
